@@ -488,12 +488,23 @@ def r04_7(ctx: Ctx) -> None:
     ctx.check(bool(ok), "R04.7", tz, tz.node, "testzip registers every member for checking", "testzip() does not register every member", construct="testzip registrations")
 
 
-def r04_8(ctx: Ctx) -> None:
+def r04_8(ctx: Ctx, rule: str = "R04.8") -> None:
     """a CrcError raised by the member decoder is not lost on the way to the caller: the catch-all around the folder task
     re-raises or forwards into the error channel, the decision being made on that channel (shared with R13.3)."""
     from . import c13
     w = ctx.prog.func("py7zr", "Worker.extract_single")
     n = 0
+    work = [c for c in q.calls(w) if "py7zr:Worker._extract_single" in shared.targets_of(ctx, w, c)]
+    for tr in [t for t in walk(w.node) if isinstance(t, ast.Try) and any(c in list(ast.walk(st)) for st in t.body for c in work)]:
+        def _names(h):
+            return ({x.id for x in ast.walk(h.type) if isinstance(x, ast.Name)} if h.type is not None else {"BaseException"})
+        catch_all = any(_names(h) & {"Exception", "BaseException"} for h in tr.handlers)
+        ctx.check(catch_all, rule, w, tr.handlers[0] if tr.handlers else tr, "the folder task's body is wrapped by a catch-all",
+                  f"the handler around the folder task catches only {sorted(set().union(*[_names(h) for h in tr.handlers])) if tr.handlers else []}: any other exception (e.g. lzma.LZMAError "
+                  "from a damaged stream, zlib.error, MemoryError) is raised inside the worker thread and lost; extraction, testzip() and the CLI report success",
+                  construct="folder task catch-all")
+        if not catch_all:
+            n += 1
     for h in [x for x in walk(w.node) if isinstance(x, ast.ExceptHandler)]:
         names = {x.id for x in ast.walk(h.type) if isinstance(x, ast.Name)} if h.type is not None else {"BaseException"}
         if not names & {"Exception", "BaseException"}:
@@ -501,14 +512,17 @@ def r04_8(ctx: Ctx) -> None:
         chans = {x.func.value.id for x in ast.walk(h) if isinstance(x, ast.Call) and isinstance(x.func, ast.Attribute) and x.func.attr in ("put", "put_nowait")
                  and isinstance(x.func.value, ast.Name) and x.func.value.id in w.params}
         if len(chans) != 1:
-            ctx.fail("R04.8", w, h, "the catch-all around the folder task forwards the exception into no (or more than one) channel parameter")
+            ctx.fail(rule, w, h, "the catch-all around the folder task forwards the exception into no (or more than one) channel parameter")
             continue
         n += 1
-        c13.handler_branches(ctx, "R04.8", w, h, next(iter(chans)))
-    ctx.floor("R04.8", n, 1, "catch-all handlers in the folder task")
+        c13.handler_branches(ctx, rule, w, h, next(iter(chans)))
+    ctx.floor(rule, n, 1, "catch-all handlers in the folder task")
 
 
 def run(ctx: Ctx) -> None:
+    from . import c06 as _c06x
+    _c06x.dispatch_forwards_skip(ctx, "R04.10")
+    shared.exits_do_not_swallow(ctx, "R04.9")
     r04_7(ctx)
     r04_8(ctx)
     from . import c10
